@@ -15,6 +15,7 @@ import KadDHT.Driver.C04
 import KadDHT.Driver.C08
 import KadDHT.Driver.C06
 import KadDHT.Driver.C15
+import KadDHT.Driver.C16
 open KadDHT.Driver
 
 def main (args : List String) : IO UInt32 := do
@@ -22,6 +23,10 @@ def main (args : List String) : IO UInt32 := do
   | ["C18"] => runPure C18.handle; return 0
   | ["C18v"] => runPure C18v.handle; return 0
   | ["C19"] => runLoop C19.step {}; return 0
+  | ["C16"] => runPure C16.handle; return 0
+  | ["C16v"] => runPure C16.verdict; return 0
+  | ["C16c"] => runPure C16.crawlHandle; return 0
+  | ["C16cv"] => runPure C16.crawlVerdict; return 0
   | ["C15"] => runPure C15.handle; return 0
   | ["C15v"] => runPure C15.verdict; return 0
   | ["C06"] => runLoop C06.step {}; return 0
